@@ -264,6 +264,11 @@ class DirectCollocation(SamplingMethod):
         opti = master.opti if hasattr(master, 'opti') else master
         opti.cache_advanced()
         initial = HashOrderedDict(initial)
+        # Guesses for the horizon (T, t0) go first, in the order given:
+        # guesses that are expressions of ocp.t are evaluated on the time grid they imply
+        horizon = [e for e in [stage.T, stage.t0, stage._T, stage._t0] if isinstance(e, MX)]
+        is_horizon = lambda k: any(ca.is_equal(k, e) for e in horizon)
+        initial = HashOrderedDict([(k,v) for k,v in initial.items() if is_horizon(k)]+[(k,v) for k,v in initial.items() if not is_horizon(k)])
         algs = get_ranges_dict(stage.algebraics)
         initial_alg = HashDict()
         for a, v in list(initial.items()):
